@@ -4,7 +4,7 @@ SPEC = {
     "gen": [],
     "streams": [
         {"name": "writelog", "cmd": "writelog",
-         "args": {"quick": ["-cases", "40"], "thorough": ["-cases", "1500"]},
+         "args": {"quick": ["-cases", "32"], "thorough": ["-cases", "1500"]},
          "search_args": ["-cases", "400"]},
         {"name": "pblog", "cmd": "writelog",
          "args": {"quick": ["-mode", "pblog", "-cases", "24"], "thorough": ["-mode", "pblog", "-cases", "600"]}},
@@ -23,6 +23,7 @@ SPEC = {
         "the Go map iteration order of pendingWriteLog is free: logs are compared sorted by key (apply_order_irrelevant justifies it)",
         "an empty write log is not stored by either backend, GetWriteLog answers 'not found' for it; the harness treats that as the empty log",
         "PathLog.v: which leaves are embedded in internal nodes is taken from the contents (a key is embedded iff another key extends it) and which leaves stay clean from the batch (only same-value inserts); both are validated against the stored internal logs (stream pblog), the positions chosen by the database are validated, not predicted",
+        "candidates built on another candidate of the same version and two-hop answers exist only on badger (pathbadger refuses child roots inside a version and children of IO roots); two-hop answers are judged by the oracle against Model.path_log's theorem (multi_hop_log_correct), not by K",
         "pairs whose end root was committed twice in one version are judged by the oracle only (served => correct); the database stores nothing for the second commit",
         "which roots a database serves a log for is ported, not derived (Model.serve): badger serves every stored root; pathbadger refuses pending roots whose batch did not get sequence number 0 of its (version, type) (writelog.go:109-113); roots that lost finalization are refused; the theorem is 'served => correct'",
     ],
@@ -30,6 +31,6 @@ SPEC = {
 
 MANIFEST = {
     "technique": "Coq proof (invariant over the pending write log by induction over arbitrary batches; canonical sorted maps; case analysis of Apply) with differential correspondence check against the real MKVS tree, both node databases and LocalBackend.Apply",
-    "level_text": "Theorems in coq/Props/C13.v hold for every old contents and every batch of inserts/removes: the log built at commit has distinct keys, is sound, complete and minimal, and applied (in any order) to the old contents gives exactly the new contents; the hashed log revives to itself; Apply persists a root iff the recomputed digest equals the expected one (or the root is already stored), a rejected Apply leaves the database unchanged and the expected root absent, every stored root is the digest of its contents over any history of Apply calls, and a log producing other contents is rejected unless root_of collides. The model is tied to the code by committing generated batches on real badger and pathbadger databases, comparing the served write log (for linear chains and for 2-3 competing candidate roots per version, before and after finalizing one of them) and the end contents with the model, and replaying corrupted and correct logs through LocalBackend.Apply on a second database; an independent Go oracle on maps judges the property on the implementation.",
+    "level_text": "Theorems in coq/Props/C13.v hold for every old contents and every batch of inserts/removes: the log built at commit has distinct keys, is sound, complete and minimal, and applied (in any order) to the old contents gives exactly the new contents; the hashed log revives to itself; Apply persists a root iff the recomputed digest equals the expected one (or the root is already stored), a rejected Apply (hash mismatch, unknown start root, already finalized version) leaves the database unchanged and the expected root absent, every stored root is the digest of its contents over any history of Apply calls, and a log producing other contents is rejected unless root_of collides; multi-hop answers (concatenation of hop logs, oldest first) are correct for any hop count; pathbadger's path-keyed internal log resolves to the committed log exactly when no inserted leaf carries the invalid pointer, and the known unservable case is a refuted lemma of the port (pathbadger_log_unservable_refuted). The model is tied to the code by committing generated batches on real badger and pathbadger databases, comparing the served write log (for linear chains and for 2-3 competing candidate roots per version, before and after finalizing one of them) and the end contents with the model, and replaying corrupted and correct logs through LocalBackend.Apply on a second database; an independent Go oracle on maps judges the property on the implementation.",
     "level_note": "Trusted: Coq kernel; the harness; contents-level abstraction of trees (bridge to root hashes is the Mkvs area's theorem); root hash treated as an arbitrary function, collisions an explicit disjunct. Not modelled: database internals below the set of stored roots, pathbadger's path-keyed log storage (checked by K/S only), encoding of stored logs.",
 }
